@@ -1,6 +1,7 @@
 // c05.cpp — the sequential approximate entry points on the real code (C05 / C06).
 //   X <alg> <D|I> <scale> <k> <graph>     alg = signed | fvs | iso
-//       prints   <PUB answer> DIR SPR <retained input ids> SPD <dropped input ids> ROOTS <..> EORD <..> <DIR answer>
+//       prints   <PUB answer> DIR SPR <retained input ids> SPD <dropped input ids> ROOTS <..> EORD <..> [FVS <..>] <DIR answer>
+//       (FVS, tree-based entry points only: parmcb::greedy_fvs on the kept object's spanner = pick oracle of the exact phase)
 //       PUB answer = the public entry point approx_mcb_sva_<alg>;  DIR answer = the same two statements the entry point
 //       consists of (construct BaseApproxSpannerAlgorithm, call run) executed here on an object we keep, so that the
 //       oracles of ITS spanner can be read through the PARMCB_VERIF accessors: ROOTS = BFS root order of
@@ -10,6 +11,7 @@
 // The emitted edge descriptors are looked up in the CALLER's graph after the call has returned (a descriptor that is not
 // an edge of the caller's graph prints as ?), so leaked internals are visible.
 #include "mcb_common.hpp"
+#include <parmcb/detail/fvs.hpp>
 #include <parmcb/parmcb_approx_sva_signed.hpp>
 #include <parmcb/parmcb_approx_sva_trees.hpp>
 
@@ -30,7 +32,7 @@ template<class G> std::vector<size_t> roots_of(const G &g) {
 }
 
 template<class G, class Exact, class WMap>
-void run_direct(GCase<G> &c, const WMap &wm, size_t k, int scale, std::ostream &out) {
+void run_direct(GCase<G> &c, const WMap &wm, size_t k, int scale, std::ostream &out, bool with_fvs) {
     typedef typename boost::graph_traits<G>::edge_descriptor Edge;
     auto index_map = boost::get(boost::vertex_index, c.g);
     parmcb::detail::BaseApproxSpannerAlgorithm<G, WMap, Exact, false> algo(c.g, wm, index_map, k);
@@ -50,6 +52,12 @@ void run_direct(GCase<G> &c, const WMap &wm, size_t k, int scale, std::ostream &
         std::vector<size_t> rank(sedges.size(), 0); size_t r = 0;
         for (auto &e : s) { for (size_t i = 0; i < sedges.size(); i++) if (sedges[i] == e) rank[i] = r; r++; }
         for (auto x : rank) out << " " << x;
+    }
+    if (with_fvs) {
+        std::vector<typename boost::graph_traits<G>::vertex_descriptor> fvs;
+        parmcb::greedy_fvs(sp, std::back_inserter(fvs));
+        out << " FVS";
+        for (auto v : fvs) out << " " << v;
     }
     std::list<std::list<Edge>> cycles;
     typename boost::property_traits<WMap>::value_type ret;
@@ -104,9 +112,9 @@ template<class G> void run_alg(const std::string &alg, Toks &t, int scale, std::
         }
     }
     // the same two statements, on an object whose spanner we can look at
-    if (alg == "signed") run_direct<G, parmcb::detail::mcb_sva_signed<G, WMap, OutIt>>(c, wm, k, scale, out);
-    else if (alg == "fvs") run_direct<G, parmcb::detail::mcb_sva_fvs_trees<G, WMap, OutIt>>(c, wm, k, scale, out);
-    else run_direct<G, parmcb::detail::mcb_sva_fvs_trees<G, WMap, OutIt>>(c, wm, k, scale, out);   // sic: what approx_mcb_sva_iso_trees instantiates
+    if (alg == "signed") run_direct<G, parmcb::detail::mcb_sva_signed<G, WMap, OutIt>>(c, wm, k, scale, out, false);
+    else if (alg == "fvs") run_direct<G, parmcb::detail::mcb_sva_fvs_trees<G, WMap, OutIt>>(c, wm, k, scale, out, true);
+    else run_direct<G, parmcb::detail::mcb_sva_fvs_trees<G, WMap, OutIt>>(c, wm, k, scale, out, true);   // sic: what approx_mcb_sva_iso_trees instantiates
 }
 
 template<class G> void run_dijkstra(Toks &t, std::ostream &out) {
